@@ -11,7 +11,17 @@ M = []
 def m(name, prop, file, old, new, args=()):
     M.append(dict(name=name, prop=prop, file=file, old=old, new=new, args=list(args)))
 
-exec(open(os.path.join(HERE, "mutant_table.py")).read())
+_table = os.path.join(HERE, "mutant_table.py")
+if "--table" in sys.argv:
+    _i = sys.argv.index("--table")
+    _table = sys.argv[_i + 1]
+    del sys.argv[_i : _i + 2]
+    exec(open(_table).read())
+else:
+    exec(open(_table).read())
+    import glob as _glob
+    for _extra in sorted(_glob.glob(os.path.join(HERE, "mutant_table_C*.py"))):
+        exec(open(_extra).read())
 
 def run(mu, keep=False):
     scr = tempfile.mkdtemp(prefix="mut.", dir="/root/scratch")
@@ -43,7 +53,7 @@ if __name__ == "__main__":
         res, dt = run(mu)
         print(f"{mu['prop']} {mu['name']:40s} {res[:200]}  ({dt:.0f}s)", flush=True)
         rows.append((mu, res, dt))
-    if not want:
+    if not want and _table.endswith("mutant_table.py"):
         with open(os.path.join(HERE, "RESULTS.md"), "w") as f:
             f.write("# Mutant self-test results (quick tier)\n\n| property | mutant | file | result | s |\n|---|---|---|---|---|\n")
             for mu, res, dt in rows:
